@@ -69,7 +69,26 @@ pub struct Event {
 impl Event {
     fn parser<'a>() -> impl Parser<FrameStream<'a>, Output = Event> + 'a {
         (
-            stream_id(),
+            // An option keyword cannot start a new event: a malformed option (e.g.
+            // `EXPECTED_VERSION foo`) must be an error, not an event on stream "EXPECTED_VERSION"
+            attempt(stream_id().and_then(|stream_id| {
+                let is_keyword = [
+                    "EVENT_ID",
+                    "EXPECTED_VERSION",
+                    "TIMESTAMP",
+                    "PAYLOAD",
+                    "METADATA",
+                ]
+                .iter()
+                .any(|kw| stream_id.eq_ignore_ascii_case(kw));
+                if is_keyword {
+                    Err(easy::Error::message_format(format!(
+                        "'{stream_id}' is a keyword, not a stream id"
+                    )))
+                } else {
+                    Ok(stream_id)
+                }
+            })),
             string().expected("event name"),
             many::<Vec<_>, _, _>(OptionalArg::parser()),
         )
